@@ -2259,3 +2259,294 @@ func okBlockEdge(errEx *ssa.Extract, pred, blk *ssa.BasicBlock) bool {
 	}
 	return false
 }
+
+// ---- C09-X2: an aggregate that handles a column's plain encoding handles its other encodings.
+//
+// Which vector kind carries a column — flat, Const (all values equal), Dict (few distinct values),
+// View (a selection) — is chosen from the data's statistics by the writer and by upstream
+// operators.  A type switch that has an arm for the flat kind but none for an encoding kind, and
+// no default that refuses, silently contributes nothing for that column: the result then depends
+// on how the data happened to be encoded.
+func runVamEncodingCoverage(c *Ctx, rule string) {
+	p := c.P
+	c.Rule(rule, "in the update methods of the auto-vectorized aggregates every type switch over vector.Any without a default covers the encodings the writer chooses from the column statistics (Const, Dict) and, for sum, every flat numeric kind the sequential sum accepts (Int, Uint, Float)")
+	// Const and Dict are the encodings the VNG writer / vector cache choose from the column's
+	// statistics (View only arises from vector operators, none of which sits between the scanner
+	// and an auto-vectorized aggregate).  For sum the flat numeric kinds are required as well: the
+	// sequential sum accepts signed, unsigned and floating-point columns.
+	enc := []string{"vector.Const", "vector.Dict"}
+	numeric := []string{"vector.Int", "vector.Uint", "vector.Float"}
+	n := 0
+	for _, fn := range p.FuncsIn("runtime/vam/op") {
+		if fn.Parent() != nil || fn.Name() != "update" || fn.Signature.Recv() == nil {
+			continue
+		}
+		decl := p.Decl(fn)
+		if decl == nil {
+			continue
+		}
+		info := p.pkgOfFunc(fn).TypesInfo
+		all := typeSwitches(info, decl.Body)
+		for _, ts := range all {
+			if ts.tagType == nil || namedOf(ts.tagType) != "vector.Any" {
+				continue
+			}
+			if ts.cases["vector.Dynamic"] && len(ts.cases) == 1 {
+				continue
+			}
+			nested := false
+			for _, o := range all {
+				if o != ts && o.stmt.Pos() < ts.stmt.Pos() && ts.stmt.End() <= o.stmt.End() {
+					nested = true // e.g. the switch over a dictionary's value vector, which is always flat
+				}
+			}
+			if nested {
+				continue
+			}
+			n++
+			construct := fnName(fn) + " dispatch on vector.Any (encodings) #" + sprint(n)
+			if ts.hasDefault {
+				c.OK(rule, construct, ts.stmt.Pos(), "has a default arm (judged by C09-X1)")
+				continue
+			}
+			var missing []string
+			req := append([]string{}, enc...)
+			if namedOf(fn.Signature.Recv().Type()) == "runtime/vam/op.Sum" {
+				req = append(req, numeric...)
+			}
+			for _, e := range req {
+				if !ts.cases[e] {
+					missing = append(missing, strings.TrimPrefix(e, "vector."))
+				}
+			}
+			if len(missing) == 0 {
+				c.OK(rule, construct, ts.stmt.Pos(), "every required kind has an arm")
+			} else {
+				construct = fnName(fn) + " dispatch on vector.Any lacks " + strings.Join(missing, ", ")
+				c.Fail(rule, construct, ts.stmt.Pos(), "no arm for "+strings.Join(missing, ", ")+" and no default: a column that arrives as that kind contributes nothing, silently (sum over a float column, or over a column stored in that encoding, is 0 once the pool has vectors)")
+			}
+		}
+	}
+	if n == 0 {
+		c.Undecided(rule, "runtime/vam/op update methods", "no dispatch on vector.Any found")
+	}
+}
+
+// ---- C09-G3: a scan that carries a pushed-down filter is not handed to the vector scanner.
+func runVectorizeDeclinesFilter(c *Ctx, rule string) {
+	p := c.P
+	c.Rule(rule, "a pushed-down filter is never lost to vectorization: either the kernel's vector scan consumes SeqScan.Filter, or the planner's vectorize decision is reached only on the nil edge of a test of scan.Filter")
+	isFilterAddr := func(v ssa.Value) bool {
+		fa, ok := v.(*ssa.FieldAddr)
+		return ok && namedOf(fa.X.Type()) == "compiler/ast/dag.SeqScan" && fieldName(fa.X.Type(), fa.Field) == "Filter"
+	}
+	if vs := p.Func("(*compiler/kernel.Builder).compileVamScan"); vs != nil {
+		for _, b := range vs.Blocks {
+			for _, in := range b.Instrs {
+				if v, ok := in.(ssa.Value); ok && isFilterAddr(v) {
+					c.OK(rule, "compileVamScan consumes SeqScan.Filter", in.Pos(), "the vector scan applies the pushed-down filter")
+					return
+				}
+			}
+		}
+	}
+	isw := p.Func("(*compiler/optimizer.Optimizer).isScanWithVectors")
+	if isw == nil {
+		c.Undecided(rule, "Optimizer.isScanWithVectors", "anchor does not resolve")
+		return
+	}
+	// the nil edge of a test on scan.Filter must dominate every return that may be true
+	var guard *ssa.BinOp
+	for _, b := range isw.Blocks {
+		for _, in := range b.Instrs {
+			cmp, ok := in.(*ssa.BinOp)
+			if !ok || (cmp.Op != token.NEQ && cmp.Op != token.EQL) || !isNilConst(cmp.Y) {
+				continue
+			}
+			if u, ok := cmp.X.(*ssa.UnOp); ok && isFilterAddr(u.X) {
+				guard = cmp
+			}
+		}
+	}
+	bad := token.NoPos
+	found := false
+	for _, b := range isw.Blocks {
+		ret, ok := b.Instrs[len(b.Instrs)-1].(*ssa.Return)
+		if !ok {
+			continue
+		}
+		v := returnOperand(ret, 0)
+		if k, ok := v.(*ssa.Const); ok && k.Value != nil && k.Value.String() == "false" {
+			continue
+		}
+		found = true
+		okEdge := false
+		if guard != nil {
+			if guard.Op == token.NEQ {
+				okEdge = falseEdgeDominatesOrSelf(guard, b)
+			} else {
+				okEdge = trueEdgeDominatesOrSelf(guard, b)
+			}
+		}
+		if !okEdge {
+			bad = ret.Pos()
+			if !bad.IsValid() {
+				bad = isw.Pos()
+			}
+		}
+	}
+	switch {
+	case !found:
+		c.Undecided(rule, "Optimizer.isScanWithVectors", "no return that may be true found")
+	case bad.IsValid():
+		c.Fail(rule, "Optimizer.isScanWithVectors declines filtered scans", bad, "a scan whose filter was pushed down can be vectorized although the vector scanner does not apply SeqScan.Filter: `from p | where … | count() by k` / `sum(x)` ignore the where clause as soon as every object of the pool has a vector copy")
+	default:
+		c.OK(rule, "Optimizer.isScanWithVectors declines filtered scans", guard.Pos(), "true only where scan.Filter == nil")
+	}
+}
+
+// ---- C02-N1: the integral-float shortcut of the formatter cannot erase the sign of zero.
+func runFloatShortcutSign(c *Ctx, rule string) {
+	p := c.P
+	c.Rule(rule, "formatPrimitive writes a float through its int64 conversion (`%d.`) only where math.Signbit was consulted first: int64(-0.0) is 0, so without the test negative zero is written as `0.` and does not survive the ZSON round trip")
+	fn := p.Func("zson.formatPrimitive")
+	if fn == nil {
+		c.Undecided(rule, "zson.formatPrimitive", "anchor does not resolve")
+		return
+	}
+	n := 0
+	for _, b := range fn.Blocks {
+		for _, in := range b.Instrs {
+			cv, ok := in.(*ssa.Convert)
+			if !ok {
+				continue
+			}
+			from, ok1 := cv.X.Type().Underlying().(*types.Basic)
+			to, ok2 := cv.Type().Underlying().(*types.Basic)
+			if !ok1 || !ok2 || from.Info()&types.IsFloat == 0 || to.Kind() != types.Int64 {
+				continue
+			}
+			// only conversions whose result is printed
+			printed := false
+			for _, r := range *cv.Referrers() {
+				if _, ok := r.(*ssa.MakeInterface); ok {
+					printed = true
+				}
+			}
+			if !printed {
+				continue
+			}
+			n++
+			// a test of the sign bit whose true edge cannot reach this conversion, and which every
+			// path with a zero value passes (its block is dominated by a test the conversion's
+			// block is dominated by as well)
+			guarded := false
+			for _, gb := range fn.Blocks {
+				iff, ok := gb.Instrs[len(gb.Instrs)-1].(*ssa.If)
+				if !ok || gb == b {
+					continue
+				}
+				if !dependsOn(iff.Cond, func(v ssa.Value) bool {
+					call, ok := v.(*ssa.Call)
+					return ok && calleeName(&call.Call) == "math.Signbit"
+				}) {
+					continue
+				}
+				idom := gb.Idom()
+				if idom == nil || !idom.Dominates(b) {
+					continue
+				}
+				if !reachesBlock(gb.Succs[0], b, gb) {
+					guarded = true
+				}
+			}
+			construct := "zson.formatPrimitive writes a float as an integer #" + sprint(n)
+			if guarded {
+				c.OK(rule, construct, cv.Pos(), "after a Signbit test")
+			} else {
+				c.Fail(rule, construct, cv.Pos(), "the value is written through int64(f) without consulting its sign bit: -0. comes out as `0.` and reads back as +0., so the ZSON round trip (and everything that prints values as ZSON) loses the sign of negative zero")
+			}
+		}
+	}
+	if n < 3 {
+		c.Undecided(rule, "zson.formatPrimitive", "fewer than 3 integral-float shortcuts found ("+sprint(n)+")")
+	}
+}
+
+// ---- C17-S2: a journal snapshot is only accepted with its end marker.
+func runSnapshotEndMarker(c *Ctx, rule string) {
+	p := c.P
+	c.Rule(rule, "the journal snapshot is self-validating: putSnapshot writes the position as the last value (no entry is written after it), and getSnapshot returns success only if that value was the last one read — a snapshot cut short at a frame boundary reads without error and must still be refused")
+	put := p.Func("(*lake/journal.Store).putSnapshot")
+	get := p.Func("(*lake/journal.Store).getSnapshot")
+	if put == nil || get == nil {
+		c.Undecided(rule, "journal.Store.putSnapshot / getSnapshot", "anchors do not resolve")
+		return
+	}
+	// writer: the Write of a NewUint64 value is not followed by another Write
+	isWrite := func(in ssa.Instruction) bool {
+		ci, ok := in.(ssa.CallInstruction)
+		return ok && calleeName(ci.Common()) == "(*zio/zngio.Writer).Write"
+	}
+	var marker ssa.Instruction
+	followed := false
+	for _, ci := range allCalls(put) {
+		if !isWrite(ci.(ssa.Instruction)) {
+			continue
+		}
+		if dependsOn(ci.Common().Args[1], func(v ssa.Value) bool {
+			call, ok := v.(*ssa.Call)
+			return ok && calleeName(&call.Call) == "super.NewUint64"
+		}) {
+			marker = ci.(ssa.Instruction)
+			if reachAvoiding(put, marker, func(ssa.Instruction) bool { return false }, isWrite) != nil {
+				followed = true
+			}
+		}
+	}
+	switch {
+	case marker == nil:
+		c.Fail(rule, "putSnapshot writes the end marker", put.Pos(), "no position value is written")
+	case followed:
+		c.Fail(rule, "putSnapshot writes the end marker", marker.Pos(), "entries can be written after the position value: a reader cannot tell a complete snapshot from one that was cut short")
+	default:
+		c.OK(rule, "putSnapshot writes the end marker", marker.Pos(), "the position is the last value written")
+	}
+	// reader: every success return is control-dependent on having seen the uint64 marker
+	okAll, any := true, false
+	for _, b := range get.Blocks {
+		ret, ok := b.Instrs[len(b.Instrs)-1].(*ssa.Return)
+		if !ok || len(ret.Results) != 3 || !isNilConst(returnOperand(ret, 2)) {
+			continue
+		}
+		any = true
+		guarded := false
+		for _, gb := range get.Blocks {
+			iff, ok := gb.Instrs[len(gb.Instrs)-1].(*ssa.If)
+			if !ok || !gb.Dominates(b) || gb == b {
+				continue
+			}
+			if dependsOnCtl(iff.Cond, func(v ssa.Value) bool {
+				k, ok := v.(*ssa.Const)
+				if !ok || k.Value == nil || k.Value.Kind() != constant.Int {
+					return false
+				}
+				i, _ := constant.Int64Val(k.Value)
+				return i == constInt(p, "", "IDUint64")
+			}) {
+				guarded = true
+			}
+		}
+		if !guarded {
+			okAll = false
+		}
+	}
+	switch {
+	case !any:
+		c.Undecided(rule, "getSnapshot requires the end marker", "no success return found")
+	case okAll:
+		c.OK(rule, "getSnapshot requires the end marker", get.Pos(), "success depends on having read the position value")
+	default:
+		c.Fail(rule, "getSnapshot requires the end marker", get.Pos(), "getSnapshot can succeed without having seen the position value that ends a complete snapshot: a snapshot truncated at a frame boundary is accepted and the entries in the lost part silently disappear")
+	}
+}
